@@ -59,8 +59,8 @@ MANIFEST = {
 
 
 def correspondence(ctx) -> CorrResult:
-    n = int(os.environ.get("VERIF_KF_CASES", ctx.scale(80, 2000)))      # development knob
-    return kc.correspondence(ctx, n_cases=n, n_exact=ctx.scale(2, 10) if n >= 80 else 0,
+    n = int(os.environ.get("VERIF_KF_CASES", ctx.scale(200, 4000)))      # development knob
+    return kc.correspondence(ctx, n_cases=n, n_exact=ctx.scale(3, 12) if n >= 100 else 0,
                              max_periods=ctx.scale(8, 24), pid=ID)
 
 
@@ -82,7 +82,7 @@ def falsify(ctx, hints):
                 run(case)
             except Exception as e:  # noqa
                 ctx.log("falsifier on a disagreement raised", repr(e)[:200])
-    n = int(os.environ.get("VERIF_KF_CASES", ctx.scale(200, 5000)))
+    n = int(os.environ.get("VERIF_KF_CASES", ctx.scale(300, 6000)))
     for _ in range(n):
         case = kc.gen_case(ctx.rng, max_periods=ctx.scale(8, 24))
         info["cases"] += 1
